@@ -86,3 +86,863 @@ Proof.
   exists [TIdentifier 1; TComma; TIdentifier 2], (ETuple [EId 1; EId 2])%N.
   split; vm_compute; reflexivity.
 Qed.
+
+(* ---------------------------------------------------------------------------------------------- *)
+(* Part 2: fuel irrelevance of the Pratt loop; fuel-free unfolding equations; where the loop stops;
+           splitting the loop at a higher binding power *)
+
+Definition consuming (P : toks -> pres) : Prop :=
+  forall ts e r, P ts = Ok (e, r) -> (List.length r < List.length ts)%nat.
+
+Lemma bind_ok : forall {A B} (r : res A) (f : A -> res B) b, bind r f = Ok b -> exists a, r = Ok a /\ f a = Ok b.
+Proof. intros A B r f b H. destruct r; simpl in H; try discriminate. eauto. Qed.
+
+Section Fuel.
+  Variable c : cfg.
+  Variable P : toks -> pres.
+  Hypothesis HP : consuming P.
+
+  Definition prefix (j : nat) (m : Z) (ts : toks) : pres :=
+    match ts with
+    | t :: rest => if tok_is_not t && (m <=? c_not_max c)
+                   then '(e, r) <- parse_expr c P j (c_not_rbp c) rest ;; Ok (ENot e, r) else P ts
+    | [] => P ts
+    end.
+  Lemma parse_expr_S : forall n m ts,
+    parse_expr c P (S n) m ts = '(lhs, r0) <- prefix n m ts ;; infix_loop c P n (c_ni_l c) (c_ni_r c) m lhs r0.
+  Proof. reflexivity. Qed.
+
+  Definition loop_body (j : nat) (nl nr m : Z) (lhs : expr) (ts : toks) : pres :=
+    match ts with
+    | [] => Ok (lhs, ts)
+    | t :: rest =>
+      if tok_is_not t then
+        if nl <? m then Ok (lhs, ts)
+        else match rest with
+             | t2 :: rest' =>
+               if tok_is_in t2 then
+                 '(rhs, r) <- parse_expr c P j nr rest' ;;
+                 if reject_chained c r then Err 2 else infix_loop c P j nl nr m (EOp lhs NotIn rhs) r
+               else Err 1
+             | [] => Err 1
+             end
+      else
+        match lookup (c_tbl c) t with
+        | None => Ok (lhs, ts)
+        | Some (op, lb, rb) =>
+          if lb <? m then Ok (lhs, ts)
+          else '(rhs, r) <- parse_expr c P j rb rest ;;
+               if is_cmp c op && reject_chained c r then Err 2 else infix_loop c P j nl nr m (EOp lhs op rhs) r
+        end
+    end.
+  Lemma infix_loop_S : forall n nl nr m lhs ts,
+    infix_loop c P (S n) nl nr m lhs ts = loop_body n nl nr m lhs ts.
+  Proof. reflexivity. Qed.
+
+  Lemma fuel_pratt : forall n,
+    (forall m ts, (List.length ts < n)%nat ->
+       (forall n', (List.length ts < n')%nat -> parse_expr c P n' m ts = parse_expr c P n m ts) /\
+       (forall e r, parse_expr c P n m ts = Ok (e, r) -> (List.length r < List.length ts)%nat)) /\
+    (forall nl nr m lhs ts, (List.length ts < n)%nat ->
+       (forall n', (List.length ts < n')%nat -> infix_loop c P n' nl nr m lhs ts = infix_loop c P n nl nr m lhs ts) /\
+       (forall e r, infix_loop c P n nl nr m lhs ts = Ok (e, r) -> (List.length r <= List.length ts)%nat)).
+  Proof.
+    induction n as [|k [IH1 IH2]].
+    - split; intros; lia.
+    - split.
+      + intros m ts Hlen.
+        assert (Hpre : forall j, (List.length ts <= j)%nat -> prefix j m ts = prefix k m ts).
+        { intros j Hj. unfold prefix. destruct ts as [|t rest]; auto.
+          destruct (tok_is_not t && (m <=? c_not_max c)); auto.
+          simpl in Hlen, Hj. destruct (IH1 (c_not_rbp c) rest ltac:(lia)) as [E _]. rewrite (E j) by lia. reflexivity. }
+        assert (Hb : forall e r, prefix k m ts = Ok (e, r) -> (List.length r < List.length ts)%nat).
+        { intros e r H. unfold prefix in H. destruct ts as [|t rest]; [eapply HP; eauto|].
+          destruct (tok_is_not t && (m <=? c_not_max c)); [|eapply HP; eauto].
+          apply bind_ok in H. destruct H as [[e0 r0] [H1 H2]]. simpl in H2. inversion H2; subst.
+          destruct (IH1 (c_not_rbp c) rest ltac:(simpl in Hlen; lia)) as [_ B]. apply B in H1. simpl. lia. }
+        split.
+        * intros n' Hn'. destruct n' as [|k']; [lia|].
+          rewrite !parse_expr_S. rewrite (Hpre k') by lia.
+          destruct (prefix k m ts) as [[e r]| | |] eqn:E; simpl; auto.
+          specialize (Hb e r eq_refl). destruct (IH2 (c_ni_l c) (c_ni_r c) m e r ltac:(lia)) as [E2 _]. apply E2. lia.
+        * intros e r H. rewrite parse_expr_S in H.
+          apply bind_ok in H. destruct H as [[e0 r0] [H1 H2]]. simpl in H2.
+          apply Hb in H1. destruct (IH2 (c_ni_l c) (c_ni_r c) m e0 r0 ltac:(lia)) as [_ B]. apply B in H2. lia.
+      + intros nl nr m lhs ts Hlen. split.
+        * intros n' Hn'. destruct n' as [|k']; [lia|]. rewrite !infix_loop_S. unfold loop_body.
+          destruct ts as [|t rest]; auto. simpl in Hlen, Hn'.
+          destruct (tok_is_not t).
+          -- destruct (nl <? m); auto. destruct rest as [|t2 rest']; auto. destruct (tok_is_in t2); auto.
+             simpl in Hlen, Hn'.
+             destruct (IH1 nr rest' ltac:(lia)) as [E B]. rewrite (E k') by lia.
+             destruct (parse_expr c P k nr rest') as [[rhs r]| | |] eqn:E1; cbn [bind]; auto.
+             destruct (reject_chained c r); auto.
+             specialize (B rhs r eq_refl). destruct (IH2 nl nr m (EOp lhs NotIn rhs) r ltac:(lia)) as [E2 _]. apply E2. lia.
+          -- destruct (lookup (c_tbl c) t) as [[[op lb] rb]|]; auto. destruct (lb <? m); auto.
+             destruct (IH1 rb rest ltac:(lia)) as [E B]. rewrite (E k') by lia.
+             destruct (parse_expr c P k rb rest) as [[rhs r]| | |] eqn:E1; cbn [bind]; auto.
+             destruct (is_cmp c op && reject_chained c r); auto.
+             specialize (B rhs r eq_refl). destruct (IH2 nl nr m (EOp lhs op rhs) r ltac:(lia)) as [E2 _]. apply E2. lia.
+        * intros e r H. rewrite infix_loop_S in H. unfold loop_body in H.
+          destruct ts as [|t rest]; [inversion H; subst; simpl; lia|]. simpl in Hlen.
+          destruct (tok_is_not t).
+          -- destruct (nl <? m); [inversion H; subst; simpl; lia|].
+             destruct rest as [|t2 rest']; [discriminate|]. destruct (tok_is_in t2); [|discriminate].
+             simpl in Hlen.
+             apply bind_ok in H. destruct H as [[rhs r1] [H1 H2]]. simpl in H2.
+             destruct (reject_chained c r1); [discriminate|].
+             destruct (IH1 nr rest' ltac:(lia)) as [_ B]. apply B in H1.
+             destruct (IH2 nl nr m (EOp lhs NotIn rhs) r1 ltac:(lia)) as [_ B2]. apply B2 in H2. simpl. lia.
+          -- destruct (lookup (c_tbl c) t) as [[[op lb] rb]|]; [|inversion H; subst; simpl; lia].
+             destruct (lb <? m); [inversion H; subst; simpl; lia|].
+             apply bind_ok in H. destruct H as [[rhs r1] [H1 H2]]. simpl in H2.
+             destruct (is_cmp c op && reject_chained c r1); [discriminate|].
+             destruct (IH1 rb rest ltac:(lia)) as [_ B]. apply B in H1.
+             destruct (IH2 nl nr m (EOp lhs op rhs) r1 ltac:(lia)) as [_ B2]. apply B2 in H2. simpl. lia.
+  Qed.
+
+  (* fuel-free top-level functions and their unfolding equations *)
+  Definition pe (m : Z) (ts : toks) : pres := parse_expr_top c P m ts.
+  Definition lp (nl nr m : Z) (lhs : expr) (ts : toks) : pres := infix_loop c P (S (List.length ts)) nl nr m lhs ts.
+
+  Arguments pe : simpl never.
+  Arguments lp : simpl never.
+
+  Definition prefixT (m : Z) (ts : toks) : pres :=
+    match ts with
+    | t :: rest => if tok_is_not t && (m <=? c_not_max c)
+                   then '(e, r) <- pe (c_not_rbp c) rest ;; Ok (ENot e, r) else P ts
+    | [] => P ts
+    end.
+  Definition loop_bodyT (nl nr m : Z) (lhs : expr) (ts : toks) : pres :=
+    match ts with
+    | [] => Ok (lhs, ts)
+    | t :: rest =>
+      if tok_is_not t then
+        if nl <? m then Ok (lhs, ts)
+        else match rest with
+             | t2 :: rest' =>
+               if tok_is_in t2 then
+                 '(rhs, r) <- pe nr rest' ;;
+                 if reject_chained c r then Err 2 else lp nl nr m (EOp lhs NotIn rhs) r
+               else Err 1
+             | [] => Err 1
+             end
+      else
+        match lookup (c_tbl c) t with
+        | None => Ok (lhs, ts)
+        | Some (op, lb, rb) =>
+          if lb <? m then Ok (lhs, ts)
+          else '(rhs, r) <- pe rb rest ;;
+               if is_cmp c op && reject_chained c r then Err 2 else lp nl nr m (EOp lhs op rhs) r
+        end
+    end.
+
+  Lemma pe_fuel : forall n m ts, (List.length ts < n)%nat -> parse_expr c P n m ts = pe m ts.
+  Proof.
+    intros n m ts H. unfold pe, parse_expr_top.
+    destruct (fuel_pratt (S (List.length ts))) as [A _]. destruct (A m ts ltac:(lia)) as [E _]. apply E. lia.
+  Qed.
+  Lemma lp_fuel : forall n nl nr m lhs ts, (List.length ts < n)%nat -> infix_loop c P n nl nr m lhs ts = lp nl nr m lhs ts.
+  Proof.
+    intros n nl nr m lhs ts H. unfold lp.
+    destruct (fuel_pratt (S (List.length ts))) as [_ A]. destruct (A nl nr m lhs ts ltac:(lia)) as [E _]. apply E. lia.
+  Qed.
+  Lemma pe_bound : forall m ts e r, pe m ts = Ok (e, r) -> (List.length r < List.length ts)%nat.
+  Proof.
+    intros m ts e r H. unfold pe, parse_expr_top in H.
+    destruct (fuel_pratt (S (List.length ts))) as [A _]. destruct (A m ts ltac:(lia)) as [_ B]. eapply B; eauto.
+  Qed.
+  Lemma lp_bound : forall nl nr m lhs ts e r, lp nl nr m lhs ts = Ok (e, r) -> (List.length r <= List.length ts)%nat.
+  Proof.
+    intros nl nr m lhs ts e r H. unfold lp in H.
+    destruct (fuel_pratt (S (List.length ts))) as [_ A]. destruct (A nl nr m lhs ts ltac:(lia)) as [_ B]. eapply B; eauto.
+  Qed.
+
+  Lemma prefixT_bound : forall m ts e r, prefixT m ts = Ok (e, r) -> (List.length r < List.length ts)%nat.
+  Proof.
+    intros m ts e r H. unfold prefixT in H. destruct ts as [|t rest]; [eapply HP; eauto|].
+    destruct (tok_is_not t && (m <=? c_not_max c)); [|eapply HP; eauto].
+    apply bind_ok in H. destruct H as [[e0 r0] [H1 H2]]. simpl in H2. inversion H2; subst.
+    apply pe_bound in H1. simpl. lia.
+  Qed.
+
+  Lemma pe_eq : forall m ts, pe m ts = '(lhs, r0) <- prefixT m ts ;; lp (c_ni_l c) (c_ni_r c) m lhs r0.
+  Proof.
+    intros m ts. unfold pe at 1, parse_expr_top. rewrite parse_expr_S.
+    assert (E : prefix (List.length ts) m ts = prefixT m ts).
+    { unfold prefix, prefixT. destruct ts as [|t rest]; auto. }
+    rewrite E. destruct (prefixT m ts) as [[e r]| | |] eqn:E1; cbn [bind]; auto.
+    apply prefixT_bound in E1. apply lp_fuel. lia.
+  Qed.
+
+  Lemma lp_eq : forall nl nr m lhs ts, lp nl nr m lhs ts = loop_bodyT nl nr m lhs ts.
+  Proof.
+    intros. unfold lp. rewrite infix_loop_S. unfold loop_body, loop_bodyT.
+    destruct ts as [|t rest]; auto.
+    destruct (tok_is_not t).
+    - destruct (nl <? m); auto. destruct rest as [|t2 rest']; auto. destruct (tok_is_in t2); auto.
+      rewrite pe_fuel by (simpl; lia).
+      destruct (pe nr rest') as [[rhs r]| | |] eqn:E1; cbn [bind]; auto.
+      destruct (reject_chained c r); auto. apply pe_bound in E1. apply lp_fuel. simpl. lia.
+    - destruct (lookup (c_tbl c) t) as [[[op lb] rb]|]; auto. destruct (lb <? m); auto.
+      rewrite pe_fuel by (simpl; lia).
+      destruct (pe rb rest) as [[rhs r]| | |] eqn:E1; cbn [bind]; auto.
+      destruct (is_cmp c op && reject_chained c r); auto. apply pe_bound in E1. apply lp_fuel. simpl. lia.
+  Qed.
+
+  (* where the loop stops *)
+  Definition stopped (nl m : Z) (ts : toks) : Prop :=
+    match ts with
+    | [] => True
+    | t :: _ => if tok_is_not t then nl <? m = true
+                else match lookup (c_tbl c) t with None => True | Some (_, lb, _) => lb <? m = true end
+    end.
+
+  Lemma lp_stop : forall n nl nr m lhs ts e r, (List.length ts < n)%nat ->
+    lp nl nr m lhs ts = Ok (e, r) -> stopped nl m r.
+  Proof.
+    induction n as [|k IH]; intros nl nr m lhs ts e r Hlen H; [lia|].
+    rewrite lp_eq in H. unfold loop_bodyT in H.
+    destruct ts as [|t rest]; [inversion H; subst; exact I|]. simpl in Hlen.
+    destruct (tok_is_not t) eqn:Et.
+    - destruct (nl <? m) eqn:El; [inversion H; subst; simpl; rewrite Et; auto|].
+      destruct rest as [|t2 rest']; [discriminate|]. destruct (tok_is_in t2); [|discriminate].
+      apply bind_ok in H. destruct H as [[rhs r1] [H1 H2]]. simpl in H2.
+      destruct (reject_chained c r1); [discriminate|].
+      apply pe_bound in H1. simpl in Hlen. eapply IH; [|exact H2]. lia.
+    - destruct (lookup (c_tbl c) t) as [[[op lb] rb]|] eqn:El; [|inversion H; subst; simpl; rewrite Et, El; auto].
+      destruct (lb <? m) eqn:Eb; [inversion H; subst; simpl; rewrite Et, El; auto|].
+      apply bind_ok in H. destruct H as [[rhs r1] [H1 H2]]. simpl in H2.
+      destruct (is_cmp c op && reject_chained c r1); [discriminate|].
+      apply pe_bound in H1. eapply IH; [|exact H2]. lia.
+  Qed.
+
+  Lemma pe_stop : forall m ts e r, pe m ts = Ok (e, r) -> stopped (c_ni_l c) m r.
+  Proof.
+    intros m ts e r H. rewrite pe_eq in H. apply bind_ok in H. destruct H as [[e0 r0] [_ H2]]. simpl in H2.
+    eapply lp_stop; [|exact H2]. apply Nat.lt_succ_diag_r.
+  Qed.
+
+  (* taking the tighter operators first and then continuing is the same as one pass *)
+  Lemma lp_split : forall n nl nr m m' lhs ts, (List.length ts < n)%nat -> m <= m' ->
+    lp nl nr m lhs ts = '(x, r) <- lp nl nr m' lhs ts ;; lp nl nr m x r.
+  Proof.
+    induction n as [|k IH]; intros nl nr m m' lhs ts Hlen Hm; [lia|].
+    rewrite (lp_eq nl nr m' lhs ts). unfold loop_bodyT.
+    destruct ts as [|t rest]; [simpl; reflexivity|]. simpl in Hlen.
+    destruct (tok_is_not t) eqn:Et.
+    - destruct (nl <? m') eqn:El'; [simpl; reflexivity|].
+      rewrite (lp_eq nl nr m lhs (t :: rest)). unfold loop_bodyT. rewrite Et.
+      assert (El : nl <? m = false) by (apply Z.ltb_ge; apply Z.ltb_ge in El'; lia). rewrite El.
+      destruct rest as [|t2 rest']; [reflexivity|]. destruct (tok_is_in t2); [|reflexivity].
+      destruct (pe nr rest') as [[rhs r]| | |] eqn:E1; cbn [bind]; auto.
+      destruct (reject_chained c r); [reflexivity|].
+      apply pe_bound in E1. simpl in Hlen. apply IH; lia.
+    - destruct (lookup (c_tbl c) t) as [[[op lb] rb]|] eqn:Elk; [|simpl; reflexivity].
+      destruct (lb <? m') eqn:Eb'; [simpl; reflexivity|].
+      rewrite (lp_eq nl nr m lhs (t :: rest)). unfold loop_bodyT. rewrite Et, Elk.
+      assert (Eb : lb <? m = false) by (apply Z.ltb_ge; apply Z.ltb_ge in Eb'; lia). rewrite Eb.
+      destruct (pe rb rest) as [[rhs r]| | |] eqn:E1; cbn [bind]; auto.
+      destruct (is_cmp c op && reject_chained c r); [reflexivity|].
+      apply pe_bound in E1. apply IH; lia.
+  Qed.
+End Fuel.
+
+(* ---------------------------------------------------------------------------------------------- *)
+(* Part 2b: the same for the stratified loops *)
+
+Section StratFuel.
+  Variable next : toks -> pres.
+  Hypothesis Hn : consuming next.
+  Variable ops : token -> option binop.
+
+  Lemma lloop_fuel : forall n lhs ts, (List.length ts < n)%nat ->
+    (forall n', (List.length ts < n')%nat -> lloop n' ops next lhs ts = lloop n ops next lhs ts) /\
+    (forall e r, lloop n ops next lhs ts = Ok (e, r) -> (List.length r <= List.length ts)%nat).
+  Proof.
+    induction n as [|k IH]; intros lhs ts Hlen; [lia|]. split.
+    - intros n' Hn'. destruct n' as [|k']; [lia|]. simpl.
+      destruct ts as [|t rest]; auto. destruct (ops t); auto.
+      destruct (next rest) as [[rhs r]| | |] eqn:E1; cbn [bind]; auto.
+      apply Hn in E1. simpl in Hlen, Hn'. destruct (IH (EOp lhs b rhs) r ltac:(lia)) as [E _]. apply E. lia.
+    - intros e r H. simpl in H. destruct ts as [|t rest]; [inversion H; subst; simpl; lia|].
+      destruct (ops t); [|inversion H; subst; simpl; lia].
+      apply bind_ok in H. destruct H as [[rhs r1] [H1 H2]]. cbn beta iota in H2.
+      apply Hn in H1. simpl in Hlen. destruct (IH (EOp lhs b rhs) r1 ltac:(lia)) as [_ B]. apply B in H2. simpl. lia.
+  Qed.
+
+  Lemma lloop_S : forall n lhs ts,
+    lloop (S n) ops next lhs ts =
+    match ts with
+    | t :: rest => match ops t with
+                   | Some op => '(rhs, r) <- next rest ;; lloop n ops next (EOp lhs op rhs) r
+                   | None => Ok (lhs, ts)
+                   end
+    | [] => Ok (lhs, ts)
+    end.
+  Proof. reflexivity. Qed.
+
+  Definition ll (lhs : expr) (ts : toks) : pres := lloop (S (List.length ts)) ops next lhs ts.
+  Arguments ll : simpl never.
+
+  Lemma ll_eq : forall lhs ts,
+    ll lhs ts = match ts with
+                | t :: rest => match ops t with
+                               | Some op => '(rhs, r) <- next rest ;; ll (EOp lhs op rhs) r
+                               | None => Ok (lhs, ts)
+                               end
+                | [] => Ok (lhs, ts)
+                end.
+  Proof.
+    intros lhs ts. unfold ll. rewrite lloop_S. destruct ts as [|t rest]; [reflexivity|].
+    destruct (ops t); auto.
+    destruct (next rest) as [[rhs r]| | |] eqn:E1; cbn [bind]; auto.
+    apply Hn in E1. destruct (lloop_fuel (List.length (t :: rest)) (EOp lhs b rhs) r ltac:(simpl; lia)) as [E _].
+    symmetry. apply E. lia.
+  Qed.
+
+  Lemma ll_bound : forall lhs ts e r, ll lhs ts = Ok (e, r) -> (List.length r <= List.length ts)%nat.
+  Proof.
+    intros lhs ts e r H. unfold ll in H.
+    destruct (lloop_fuel (S (List.length ts)) lhs ts ltac:(lia)) as [_ B]. eapply B; eauto.
+  Qed.
+
+  Lemma left_level_eq : forall ts, left_level ops next ts = '(x, r) <- next ts ;; ll x r.
+  Proof. reflexivity. Qed.
+
+  Lemma left_level_consuming : consuming (left_level ops next).
+  Proof.
+    intros ts e r H. rewrite left_level_eq in H. apply bind_ok in H. destruct H as [[x r1] [H1 H2]].
+    cbn beta iota in H2. apply Hn in H1. apply ll_bound in H2. lia.
+  Qed.
+End StratFuel.
+
+Section NotFuel.
+  Variable P : toks -> pres.
+  Hypothesis HP : consuming P.
+
+  Lemma g_term_consuming : consuming (g_term P). Proof. apply left_level_consuming; auto. Qed.
+  Lemma g_arith_consuming : consuming (g_arith P). Proof. apply left_level_consuming, g_term_consuming. Qed.
+  Lemma g_shift_consuming : consuming (g_shift P). Proof. apply left_level_consuming, g_arith_consuming. Qed.
+  Lemma g_bitand_consuming : consuming (g_bitand P). Proof. apply left_level_consuming, g_shift_consuming. Qed.
+  Lemma g_bitxor_consuming : consuming (g_bitxor P). Proof. apply left_level_consuming, g_bitand_consuming. Qed.
+  Lemma g_bitor_consuming : consuming (g_bitor P). Proof. apply left_level_consuming, g_bitxor_consuming. Qed.
+
+  Lemma g_cmp_tail_bound : forall x ts e r, g_cmp_tail P x ts = Ok (e, r) -> (List.length r <= List.length ts)%nat.
+  Proof.
+    intros x ts e r H. unfold g_cmp_tail in H.
+    destruct ts as [|t rest]; [inversion H; subst; simpl; lia|].
+    destruct (tok_is_not t).
+    - destruct rest as [|t2 rest']; [discriminate|]. destruct (tok_is_in t2); [|discriminate].
+      apply bind_ok in H. destruct H as [[y r1] [H1 H2]]. cbn beta iota in H2.
+      destruct (cmp_start r1); [discriminate|]. inversion H2; subst.
+      apply g_bitor_consuming in H1. simpl. lia.
+    - destruct (cmp_ops t); [|inversion H; subst; simpl; lia].
+      apply bind_ok in H. destruct H as [[y r1] [H1 H2]]. cbn beta iota in H2.
+      destruct (cmp_start r1); [discriminate|]. inversion H2; subst.
+      apply g_bitor_consuming in H1. simpl. lia.
+  Qed.
+
+  Lemma g_comparison_consuming : consuming (g_comparison P).
+  Proof.
+    intros ts e r H. unfold g_comparison in H. apply bind_ok in H. destruct H as [[x r1] [H1 H2]].
+    cbn beta iota in H2. apply g_bitor_consuming in H1. apply g_cmp_tail_bound in H2. lia.
+  Qed.
+
+  Definition not_body (ts : toks) : pres :=
+    match ts with
+    | t :: rest => if tok_is_not t then '(e, r) <- g_not_test P rest ;; Ok (ENot e, r) else g_comparison P ts
+    | [] => g_comparison P ts
+    end.
+
+  Lemma g_not_fuel : forall n ts, (List.length ts < n)%nat -> g_not_loop P n ts = g_not_test P ts.
+  Proof.
+    induction n as [|k IH]; intros ts Hlen; [lia|].
+    unfold g_not_test. cbn [g_not_loop]. destruct ts as [|t rest]; auto.
+    destruct (tok_is_not t); auto. simpl in Hlen.
+    rewrite (IH rest) by lia. reflexivity.
+  Qed.
+
+  Lemma g_not_eq : forall ts, g_not_test P ts = not_body ts.
+  Proof.
+    intros ts. unfold g_not_test at 1, not_body. cbn [g_not_loop]. destruct ts as [|t rest]; auto.
+  Qed.
+
+  Lemma g_not_consuming : consuming (g_not_test P).
+  Proof.
+    intros ts. remember (List.length ts) as n eqn:En. revert ts En.
+    induction n as [n IH] using lt_wf_ind. intros ts En e r H. rewrite g_not_eq in H. unfold not_body in H.
+    destruct ts as [|t rest]; [apply g_comparison_consuming in H; lia|].
+    destruct (tok_is_not t); [|apply g_comparison_consuming in H; lia].
+    apply bind_ok in H. destruct H as [[e0 r0] [H1 H2]]. cbn beta iota in H2. inversion H2; subst.
+    eapply (IH (List.length rest)) in H1; [|simpl; lia|reflexivity]. simpl. lia.
+  Qed.
+  Lemma g_and_consuming : consuming (g_and_test P). Proof. apply left_level_consuming, g_not_consuming. Qed.
+End NotFuel.
+
+(* ---------------------------------------------------------------------------------------------- *)
+(* Part 3: Pratt at a binding power entering level i = the stratified nonterminal of level i *)
+
+Lemma kind_in : forall t, List.In (kind t) all_kinds.
+Proof. destruct t; simpl; tauto. Qed.
+Lemma ref_op_kind : forall t, ref_op (kind t) = ref_op t.
+Proof. destruct t; reflexivity. Qed.
+Lemma lookup_kind : forall tbl t, lookup tbl (kind t) = lookup tbl t.
+Proof.
+  assert (KK : forall t, kind (kind t) = kind t) by (destruct t; reflexivity).
+  induction tbl as [|[k v] r IH]; intros t; simpl; auto. rewrite KK, IH. reflexivity.
+Qed.
+Lemma binop_eqb_eq : forall a b, binop_eqb a b = true -> a = b.
+Proof. destruct a, b; simpl; intros; congruence. Qed.
+Lemma all_binops_in : forall o, List.In o all_binops.
+Proof. destruct o; simpl; tauto. Qed.
+Lemma tok_is_not_eq : forall t, tok_is_not t = true -> t = TNot.
+Proof. destruct t; simpl; congruence. Qed.
+Lemma lookup_in : forall tbl t v, lookup tbl t = Some v -> List.In v (map snd tbl).
+Proof.
+  induction tbl as [|[k v0] r IH]; intros t v H; simpl in *; [discriminate|].
+  destruct (token_eqb k (kind t)); [inversion H; auto|eauto].
+Qed.
+
+Section Main.
+  Variable c : cfg.
+  Variable P : toks -> pres.
+  Hypothesis HP : consuming P.
+  Hypothesis Hok : table_ok c = true.
+
+  Local Notation pe := (pe c P) (only parsing).
+  Local Notation lp := (lp c P) (only parsing).
+
+  (* the facts packed in table_ok *)
+  Lemma T_all : 
+    (forall t, option_map (fun x => fst (fst x)) (lookup (c_tbl c) t) = ref_op t) /\
+    (forall o, is_cmp c o = ref_is_cmp o) /\
+    (forall op l r, List.In (op, l, r) (entries c) -> entry_ok c r (S (ref_level op)) = true) /\
+    c_ni_l c = c_nic_l c /\ c_ni_r c = c_nic_r c /\
+    entry_ok c (c_test c) 0 = true /\ entry_ok c (c_ortest c) 0 = true /\ entry_ok c (c_arg c) 0 = true /\
+    entry_ok c (c_not_rbp c) 2 = true /\ entry_ok c (c_bitor c) 4 = true.
+  Proof.
+    unfold table_ok in Hok. repeat rewrite andb_true_iff in Hok.
+    destruct Hok as [[[[[[[[[[[H1 H2] H3] H4] H5] H6] H7] H8] H9] H10] _] _].
+    rewrite forallb_forall in H1, H2, H3.
+    repeat split; auto.
+    - intros t. specialize (H1 (kind t) (kind_in t)). rewrite lookup_kind, ref_op_kind in H1.
+      destruct (option_map _ (lookup (c_tbl c) t)), (ref_op t); simpl in H1; try discriminate; auto.
+      apply binop_eqb_eq in H1. congruence.
+    - intros o. specialize (H2 o (all_binops_in o)). apply eqb_prop in H2. exact H2.
+    - intros op l r Hin. exact (H3 (op, l, r) Hin).
+    - apply Z.eqb_eq; auto.
+    - apply Z.eqb_eq; auto.
+  Qed.
+
+  Lemma T_lookup : forall t, option_map (fun x => fst (fst x)) (lookup (c_tbl c) t) = ref_op t.
+  Proof. apply T_all. Qed.
+  Lemma T_cmp : forall o, is_cmp c o = ref_is_cmp o.
+  Proof. apply T_all. Qed.
+  Lemma T_rhs : forall op l r, List.In (op, l, r) (entries c) -> entry_ok c r (S (ref_level op)) = true.
+  Proof. apply T_all. Qed.
+
+  Lemma lookup_entries : forall t op l r, lookup (c_tbl c) t = Some (op, l, r) -> List.In (op, l, r) (entries c).
+  Proof. intros. unfold entries. right. right. eapply lookup_in; eauto. Qed.
+  Lemma ni_entries : List.In (NotIn, c_ni_l c, c_ni_r c) (entries c).
+  Proof. unfold entries. left. reflexivity. Qed.
+
+  (* band facts *)
+  Lemma band_ge : forall m i op l r, entry_ok c m i = true -> List.In (op, l, r) (entries c) ->
+    (i <= ref_level op)%nat -> m <= l.
+  Proof.
+    intros m i op l r H Hin Hle. unfold entry_ok in H. apply andb_true_iff in H. destruct H as [H _].
+    unfold band_ok in H. rewrite forallb_forall in H. specialize (H _ Hin). cbn beta iota in H.
+    apply Nat.leb_le in Hle. rewrite Hle in H. apply Z.leb_le. exact H.
+  Qed.
+  Lemma band_lt : forall m i op l r, entry_ok c m i = true -> List.In (op, l, r) (entries c) ->
+    (ref_level op < i)%nat -> l < m.
+  Proof.
+    intros m i op l r H Hin Hlt. unfold entry_ok in H. apply andb_true_iff in H. destruct H as [H _].
+    unfold band_ok in H. rewrite forallb_forall in H. specialize (H _ Hin). cbn beta iota in H.
+    apply Nat.leb_gt in Hlt. rewrite Hlt in H. apply Z.ltb_lt. exact H.
+  Qed.
+  Lemma notflag : forall m i, entry_ok c m i = true -> (m <=? c_not_max c) = Nat.leb i 2.
+  Proof.
+    intros m i H. unfold entry_ok in H. apply andb_true_iff in H. destruct H as [_ H].
+    unfold notflag_ok in H. apply eqb_prop in H. exact H.
+  Qed.
+
+  Definition stopped_lvl (j : nat) (ts : toks) : Prop :=
+    match ts with
+    | [] => True
+    | t :: _ => match ref_op t with Some op => (ref_level op < j)%nat | None => True end
+    end.
+
+  Lemma stop_lvl : forall m j r, entry_ok c m j = true -> stopped c (c_ni_l c) m r -> stopped_lvl j r.
+  Proof.
+    intros m j r He Hs. destruct r as [|t rest]; simpl; auto. simpl in Hs.
+    destruct (tok_is_not t) eqn:Et.
+    - apply tok_is_not_eq in Et. subst t. simpl.
+      destruct (Nat.le_gt_cases j 3) as [Hle|Hgt]; [|lia].
+      pose proof (band_ge m j NotIn _ _ He ni_entries Hle). apply Z.ltb_lt in Hs. lia.
+    - pose proof (T_lookup t) as HT.
+      destruct (lookup (c_tbl c) t) as [[[op l] r]|] eqn:El; simpl in HT; rewrite <- HT; auto.
+      destruct (Nat.le_gt_cases j (ref_level op)) as [Hle|Hgt]; [|lia].
+      pose proof (band_ge m j op l r He (lookup_entries _ _ _ _ El) Hle). apply Z.ltb_lt in Hs. lia.
+  Qed.
+
+  Lemma pe_stop_lvl : forall m j ts e r, entry_ok c m j = true -> pe m ts = Ok (e, r) -> stopped_lvl j r.
+  Proof. intros. eapply stop_lvl; eauto. eapply pe_stop; eauto. Qed.
+
+  Lemma reject_chained_eq : forall r, reject_chained c r = cmp_start r.
+  Proof.
+    intros [|t rest]; simpl; auto. pose proof (T_lookup t) as HT.
+    destruct (tok_is_not t) eqn:Et.
+    - apply tok_is_not_eq in Et. subst t. simpl in HT.
+      destruct (lookup (c_tbl c) TNot) as [[[op l] r]|]; simpl in HT; [|discriminate].
+      inversion HT; subst. rewrite T_cmp. reflexivity.
+    - simpl. destruct (lookup (c_tbl c) t) as [[[op l] r]|]; simpl in HT.
+      + rewrite T_cmp. revert HT. destruct t; simpl; try discriminate; intros HT; inversion HT; subst; reflexivity.
+      + revert HT. destruct t; simpl; try discriminate; auto.
+  Qed.
+
+  (* level 10: a binding power above every operator parses one operand *)
+  Lemma level10 : forall m ts, entry_ok c m 10 = true -> pe m ts = P ts.
+  Proof.
+    intros m ts He. rewrite (pe_eq c P HP). unfold prefixT.
+    assert (Hn : (m <=? c_not_max c) = false) by (rewrite (notflag m 10 He); reflexivity).
+    assert (E : match ts with
+                | t :: rest => if tok_is_not t && (m <=? c_not_max c)
+                               then '(e, r) <- pe (c_not_rbp c) rest ;; Ok (ENot e, r) else P ts
+                | [] => P ts end = P ts).
+    { destruct ts; auto. rewrite Hn, andb_false_r. reflexivity. }
+    rewrite E. destruct (P ts) as [[e r]| | |]; cbn [bind]; auto.
+    rewrite (lp_eq c P HP). unfold loop_bodyT. destruct r as [|t rest]; auto.
+    destruct (tok_is_not t).
+    - assert (c_ni_l c <? m = true) as ->; auto.
+      apply Z.ltb_lt. eapply band_lt; [exact He|exact ni_entries|simpl; lia].
+    - destruct (lookup (c_tbl c) t) as [[[op l] r]|] eqn:El; auto.
+      assert (l <? m = true) as ->; auto.
+      apply Z.ltb_lt. eapply band_lt; [exact He|eapply lookup_entries; eauto|destruct op; simpl; lia].
+  Qed.
+
+  Definition gen_ops (i : nat) (t : token) : option binop :=
+    match ref_op1 t with Some op => if Nat.eqb (ref_level op) i then Some op else None | None => None end.
+
+  Lemma ref_op_not1 : forall t, tok_is_not t = false -> ref_op t = ref_op1 t.
+  Proof. destruct t; simpl; intros; try reflexivity; discriminate. Qed.
+
+  Section Left.
+    Variable i : nat.
+    Variable ops : token -> option binop.
+    Variable next : toks -> pres.
+    Hypothesis Hnext : consuming next.
+    Hypothesis Hops : forall t, ops t = gen_ops i t.
+    Hypothesis Hi2 : i <> 2%nat.
+    Hypothesis Hi3 : i <> 3%nat.
+    Variable ts : toks.
+    Hypothesis Hshort : forall ts' m', (List.length ts' < List.length ts)%nat -> entry_ok c m' (S i) = true ->
+                                       pe m' ts' = next ts'.
+    Variable m : Z.
+    Hypothesis Hm : entry_ok c m i = true.
+
+    Lemma band_loop : forall n x r, (List.length r < n)%nat -> (List.length r <= List.length ts)%nat ->
+      stopped_lvl (S i) r -> lp (c_ni_l c) (c_ni_r c) m x r = ll next ops x r.
+    Proof.
+      induction n as [|k IH]; intros x r Hn Hle Hs; [lia|].
+      rewrite (lp_eq c P HP), (ll_eq next Hnext ops). unfold loop_bodyT.
+      destruct r as [|t rest]; auto. simpl in Hs, Hn, Hle.
+      destruct (tok_is_not t) eqn:Et.
+      - apply tok_is_not_eq in Et. subst t. simpl in Hs. rewrite Hops. unfold gen_ops. simpl.
+        assert (c_ni_l c <? m = true) as ->; auto.
+        apply Z.ltb_lt. eapply band_lt; [exact Hm|exact ni_entries|simpl; lia].
+      - pose proof (T_lookup t) as HT. pose proof (ref_op_not1 t Et) as H1.
+        rewrite Hops. unfold gen_ops. rewrite <- H1, <- HT. rewrite <- HT in Hs.
+        destruct (lookup (c_tbl c) t) as [[[op l] rb]|] eqn:El; simpl in Hs |- *; auto.
+        destruct (Nat.eqb (ref_level op) i) eqn:Ei.
+        + apply Nat.eqb_eq in Ei.
+          assert (l <? m = false) as ->.
+          { apply Z.ltb_ge. eapply band_ge; [exact Hm|eapply lookup_entries; eauto|lia]. }
+          assert (Hrb : entry_ok c rb (S i) = true).
+          { rewrite <- Ei. eapply T_rhs. eapply lookup_entries; eauto. }
+          pose proof (Hshort rest rb ltac:(lia) Hrb) as Hpe. rewrite Hpe.
+          destruct (next rest) as [[rhs r1]| | |] eqn:En; cbn [bind]; auto.
+          assert (is_cmp c op = false) as ->.
+          { rewrite T_cmp. unfold ref_is_cmp. apply Nat.eqb_neq. lia. }
+          cbn [andb]. apply IH.
+          * apply Hnext in En. lia.
+          * apply Hnext in En. lia.
+          * eapply pe_stop_lvl; [exact Hrb|]. exact Hpe.
+        + apply Nat.eqb_neq in Ei.
+          assert (l <? m = true) as ->; auto.
+          apply Z.ltb_lt. eapply band_lt; [exact Hm|eapply lookup_entries; eauto|lia].
+    Qed.
+
+    Hypothesis Hex : exists op l r, List.In (op, l, r) (entries c) /\ ref_level op = i.
+    Hypothesis Hsame : forall m', entry_ok c m' (S i) = true -> pe m' ts = next ts.
+
+    Lemma left_step : pe m ts = left_level ops next ts.
+    Proof.
+      destruct Hex as (op0 & l0 & r0 & Hin0 & Hl0).
+      assert (He' : entry_ok c r0 (S i) = true) by (rewrite <- Hl0; eapply T_rhs; eauto).
+      assert (Hmm : m <= r0).
+      { pose proof (band_ge m i op0 l0 r0 Hm Hin0 ltac:(lia)).
+        pose proof (band_lt r0 (S i) op0 l0 r0 He' Hin0 ltac:(lia)). lia. }
+      assert (Hpre : prefixT c P m ts = prefixT c P r0 ts).
+      { unfold prefixT. destruct ts as [|t rest]; auto.
+        rewrite (notflag m i Hm), (notflag r0 (S i) He').
+        assert (Nat.leb i 2 = Nat.leb (S i) 2) as ->; auto.
+        destruct i as [|[|[|k]]]; simpl; auto; lia. }
+      rewrite left_level_eq. rewrite <- (Hsame r0 He').
+      rewrite (pe_eq c P HP m ts), (pe_eq c P HP r0 ts). rewrite Hpre.
+      destruct (prefixT c P r0 ts) as [[lhs r1]| | |] eqn:Ep; cbn [bind]; auto.
+      rewrite (lp_split c P HP (S (List.length r1)) (c_ni_l c) (c_ni_r c) m r0 lhs r1) by lia.
+      destruct (lp (c_ni_l c) (c_ni_r c) r0 lhs r1) as [[x r]| | |] eqn:El; cbn [bind]; auto.
+      apply (band_loop (S (List.length r))); [lia| |].
+      - apply (prefixT_bound c P HP) in Ep. apply (lp_bound c P HP) in El. lia.
+      - eapply stop_lvl; [exact He'|]. eapply (lp_stop c P HP); [|exact El]. apply Nat.lt_succ_diag_r.
+    Qed.
+  End Left.
+
+  Lemma lp_stops_gen : forall j m x r, entry_ok c m j = true -> stopped_lvl j r ->
+    lp (c_ni_l c) (c_ni_r c) m x r = Ok (x, r).
+  Proof.
+    intros j m x r He Hs. rewrite (lp_eq c P HP). unfold loop_bodyT. destruct r as [|t rest]; auto.
+    simpl in Hs. destruct (tok_is_not t) eqn:Et.
+    - apply tok_is_not_eq in Et. subst t. simpl in Hs.
+      assert (c_ni_l c <? m = true) as ->; auto.
+      apply Z.ltb_lt. eapply band_lt; [exact He|exact ni_entries|simpl; lia].
+    - pose proof (T_lookup t) as HT. rewrite <- HT in Hs.
+      destruct (lookup (c_tbl c) t) as [[[op l] rb]|] eqn:El; simpl in Hs; auto.
+      assert (l <? m = true) as ->; auto.
+      apply Z.ltb_lt. eapply band_lt; [exact He|eapply lookup_entries; eauto|lia].
+  Qed.
+
+  Lemma cmp_level3 : forall t op, ref_op1 t = Some op -> ref_level op = 3%nat -> cmp_ops t = Some op.
+  Proof. destruct t; simpl; intros op H; inversion H; subst; simpl; intros; try discriminate; reflexivity. Qed.
+  Lemma cmp_other : forall t op, ref_op1 t = Some op -> ref_level op <> 3%nat -> cmp_ops t = None.
+  Proof. destruct t; simpl; intros op H; inversion H; subst; simpl; intros; try reflexivity; congruence. Qed.
+  Lemma cmp_none : forall t, ref_op1 t = None -> cmp_ops t = None.
+  Proof. destruct t; simpl; intros; try reflexivity; discriminate. Qed.
+  Lemma no_level2 : forall op, ref_level op <> 2%nat.
+  Proof. destruct op; simpl; lia. Qed.
+
+  Lemma not_cmp_start : forall r, cmp_start r = false -> stopped_lvl 4 r -> stopped_lvl 2 r.
+  Proof.
+    intros [|t rest] Hc Hs; simpl in *; auto.
+    apply orb_false_iff in Hc. destruct Hc as [Et Hc]. rewrite (ref_op_not1 t Et) in *.
+    destruct (ref_op1 t) as [op|] eqn:E; auto.
+    destruct (Nat.eq_dec (ref_level op) 3) as [E3|E3].
+    - rewrite (cmp_level3 t op E E3) in Hc. discriminate.
+    - pose proof (no_level2 op). lia.
+  Qed.
+
+  Section NotLevel.
+    Variable ts : toks.
+    Hypothesis Hshort2 : forall ts' m', (List.length ts' < List.length ts)%nat -> entry_ok c m' 2 = true ->
+                                        pe m' ts' = g_not_test P ts'.
+    Hypothesis Hshort4 : forall ts' m', (List.length ts' < List.length ts)%nat -> entry_ok c m' 4 = true ->
+                                        pe m' ts' = g_bitor P ts'.
+    Hypothesis Hsame4 : forall m', entry_ok c m' 4 = true -> pe m' ts = g_bitor P ts.
+    Variable m : Z.
+    Hypothesis Hm : entry_ok c m 2 = true.
+
+    Lemma cmp_tail_eq : forall x r, (List.length r < List.length ts)%nat -> stopped_lvl 4 r ->
+      lp (c_ni_l c) (c_ni_r c) m x r = g_cmp_tail P x r.
+    Proof.
+      intros x r Hlen Hs. rewrite (lp_eq c P HP). unfold loop_bodyT, g_cmp_tail.
+      destruct r as [|t rest]; auto. simpl in Hs, Hlen.
+      destruct (tok_is_not t) eqn:Et.
+      - assert (c_ni_l c <? m = false) as ->.
+        { apply Z.ltb_ge. eapply band_ge; [exact Hm|exact ni_entries|simpl; lia]. }
+        destruct rest as [|t2 rest']; auto. destruct (tok_is_in t2); auto. simpl in Hlen.
+        assert (Hr : entry_ok c (c_ni_r c) 4 = true) by (apply (T_rhs NotIn (c_ni_l c) (c_ni_r c) ni_entries)).
+        pose proof (Hshort4 rest' (c_ni_r c) ltac:(lia) Hr) as Hpe. rewrite Hpe.
+        destruct (g_bitor P rest') as [[y r2]| | |] eqn:En; cbn [bind]; auto.
+        rewrite reject_chained_eq. destruct (cmp_start r2) eqn:Ec; auto.
+        eapply lp_stops_gen; [exact Hm|]. apply not_cmp_start; auto. eapply pe_stop_lvl; [exact Hr|exact Hpe].
+      - pose proof (T_lookup t) as HT. pose proof (ref_op_not1 t Et) as H1. rewrite H1 in *.
+        destruct (lookup (c_tbl c) t) as [[[op l] rb]|] eqn:El; simpl in HT.
+        + rewrite <- HT in Hs.
+          destruct (Nat.eq_dec (ref_level op) 3) as [E3|E3].
+          * rewrite (cmp_level3 t op (eq_sym HT) E3).
+            assert (l <? m = false) as ->.
+            { apply Z.ltb_ge. eapply band_ge; [exact Hm|eapply lookup_entries; eauto|lia]. }
+            assert (Hr : entry_ok c rb 4 = true).
+            { change 4%nat with (S 3). rewrite <- E3. eapply T_rhs. eapply lookup_entries; eauto. }
+            pose proof (Hshort4 rest rb ltac:(lia) Hr) as Hpe. rewrite Hpe.
+            destruct (g_bitor P rest) as [[y r2]| | |] eqn:En; cbn [bind]; auto.
+            assert (is_cmp c op = true) as ->.
+            { rewrite T_cmp. unfold ref_is_cmp. rewrite E3. reflexivity. }
+            cbn [andb]. rewrite reject_chained_eq. destruct (cmp_start r2) eqn:Ec; auto.
+            eapply lp_stops_gen; [exact Hm|]. apply not_cmp_start; auto. eapply pe_stop_lvl; [exact Hr|exact Hpe].
+          * rewrite (cmp_other t op (eq_sym HT) E3).
+            assert (l <? m = true) as ->; auto.
+            apply Z.ltb_lt. eapply band_lt; [exact Hm|eapply lookup_entries; eauto|].
+            pose proof (no_level2 op). lia.
+        + rewrite (cmp_none t (eq_sym HT)). reflexivity.
+    Qed.
+
+    Lemma cmp_part : (match ts with t :: _ => tok_is_not t = false | [] => True end) -> pe m ts = g_comparison P ts.
+    Proof.
+      intros Hhd.
+      assert (He4 : entry_ok c (c_bitor c) 4 = true) by apply T_all.
+      set (m4 := c_bitor c) in *.
+      assert (Hmm : m <= m4).
+      { pose proof (band_ge m 2 NotIn _ _ Hm ni_entries ltac:(simpl; lia)).
+        pose proof (band_lt m4 4 NotIn _ _ He4 ni_entries ltac:(simpl; lia)). lia. }
+      assert (Hpre : forall mm, prefixT c P mm ts = P ts).
+      { intros mm. unfold prefixT. destruct ts as [|t rest]; auto. rewrite Hhd. reflexivity. }
+      unfold g_comparison. rewrite <- (Hsame4 m4 He4).
+      rewrite (pe_eq c P HP m ts), (pe_eq c P HP m4 ts). rewrite !Hpre.
+      destruct (P ts) as [[lhs r1]| | |] eqn:Ep; cbn [bind]; auto.
+      rewrite (lp_split c P HP (S (List.length r1)) (c_ni_l c) (c_ni_r c) m m4 lhs r1) by lia.
+      destruct (lp (c_ni_l c) (c_ni_r c) m4 lhs r1) as [[x r]| | |] eqn:El; cbn [bind]; auto.
+      apply cmp_tail_eq.
+      - apply HP in Ep. apply (lp_bound c P HP) in El. lia.
+      - eapply stop_lvl; [exact He4|]. eapply (lp_stop c P HP); [|exact El]. apply Nat.lt_succ_diag_r.
+    Qed.
+
+    Lemma not_step : pe m ts = g_not_test P ts.
+    Proof.
+      destruct (match ts with t :: _ => tok_is_not t | [] => false end) eqn:Eh.
+      2:{ rewrite g_not_eq. unfold not_body.
+          assert (Hc : g_comparison P ts = match ts with
+                                           | t :: rest => if tok_is_not t then '(e, r) <- g_not_test P rest ;; Ok (ENot e, r)
+                                                          else g_comparison P ts
+                                           | [] => g_comparison P ts end).
+          { destruct ts as [|t rest]; auto. rewrite Eh. reflexivity. }
+          rewrite <- Hc. apply cmp_part. destruct ts; [exact I|exact Eh]. }
+      rewrite g_not_eq. unfold not_body.
+      destruct ts as [|t rest]; [discriminate|]. rename Eh into Et.
+      rewrite (pe_eq c P HP). unfold prefixT. rewrite Et, (notflag m 2 Hm). cbn [andb Nat.leb].
+      assert (Hr : entry_ok c (c_not_rbp c) 2 = true) by apply T_all.
+      pose proof (Hshort2 rest (c_not_rbp c) ltac:(simpl; lia) Hr) as Hpe. rewrite Hpe.
+      destruct (g_not_test P rest) as [[e r]| | |] eqn:En; cbn [bind]; auto.
+      eapply lp_stops_gen; [exact Hm|]. eapply pe_stop_lvl; [exact Hr|exact Hpe].
+    Qed.
+  End NotLevel.
+
+  Lemma ex_entry : forall t op, ref_op t = Some op -> exists op' l r, List.In (op', l, r) (entries c) /\ ref_level op' = ref_level op.
+  Proof.
+    intros t op H. pose proof (T_lookup t) as HT. rewrite H in HT.
+    destruct (lookup (c_tbl c) t) as [[[op' l] r]|] eqn:El; simpl in HT; [|discriminate].
+    inversion HT; subst. exists op, l, r. split; auto. eapply lookup_entries; eauto.
+  Qed.
+
+  Definition G (i : nat) : toks -> pres :=
+    match i with
+    | 0 => g_or_test P | 1 => g_and_test P | 2 => g_not_test P | 4 => g_bitor P | 5 => g_bitxor P
+    | 6 => g_bitand P | 7 => g_shift P | 8 => g_arith P | 9 => g_term P | _ => P
+    end%nat.
+  Definition valid_level (i : nat) : Prop := (i <= 10)%nat /\ i <> 3%nat.
+
+  Theorem pratt_level : forall n ts, (List.length ts < n)%nat ->
+    forall i m, valid_level i -> entry_ok c m i = true -> pe m ts = G i ts.
+  Proof.
+    induction n as [|k IH]; intros ts Hlen; [lia|].
+    assert (SH : forall i, valid_level i -> forall ts' m', (List.length ts' < List.length ts)%nat ->
+                 entry_ok c m' i = true -> pe m' ts' = G i ts').
+    { intros i Hv ts' m' Hl He. apply IH; auto. lia. }
+    assert (V : forall i, (i <= 10)%nat -> i <> 3%nat -> valid_level i) by (intros; split; auto).
+    assert (A10 : forall m, entry_ok c m 10 = true -> pe m ts = P ts) by (intros; apply level10; auto).
+    assert (A9 : forall m, entry_ok c m 9 = true -> pe m ts = g_term P ts).
+    { intros m Hm. apply (left_step 9 term_ops P HP); auto; try lia.
+      - destruct t; reflexivity.
+      - apply (SH 10%nat); apply V; lia.
+      - apply (ex_entry TStar Multiply); reflexivity. }
+    assert (A8 : forall m, entry_ok c m 8 = true -> pe m ts = g_arith P ts).
+    { intros m Hm. apply (left_step 8 arith_ops (g_term P) (g_term_consuming P HP)); auto; try lia.
+      - destruct t; reflexivity.
+      - apply (SH 9%nat); apply V; lia.
+      - apply (ex_entry TPlus Add); reflexivity. }
+    assert (A7 : forall m, entry_ok c m 7 = true -> pe m ts = g_shift P ts).
+    { intros m Hm. apply (left_step 7 shift_ops (g_arith P) (g_arith_consuming P HP)); auto; try lia.
+      - destruct t; reflexivity.
+      - apply (SH 8%nat); apply V; lia.
+      - apply (ex_entry TLessLess LeftShift); reflexivity. }
+    assert (A6 : forall m, entry_ok c m 6 = true -> pe m ts = g_bitand P ts).
+    { intros m Hm. apply (left_step 6 bitand_ops (g_shift P) (g_shift_consuming P HP)); auto; try lia.
+      - destruct t; reflexivity.
+      - apply (SH 7%nat); apply V; lia.
+      - apply (ex_entry TAmpersand BitAnd); reflexivity. }
+    assert (A5 : forall m, entry_ok c m 5 = true -> pe m ts = g_bitxor P ts).
+    { intros m Hm. apply (left_step 5 bitxor_ops (g_bitand P) (g_bitand_consuming P HP)); auto; try lia.
+      - destruct t; reflexivity.
+      - apply (SH 6%nat); apply V; lia.
+      - apply (ex_entry TCaret BitXor); reflexivity. }
+    assert (A4 : forall m, entry_ok c m 4 = true -> pe m ts = g_bitor P ts).
+    { intros m Hm. apply (left_step 4 bitor_ops (g_bitxor P) (g_bitxor_consuming P HP)); auto; try lia.
+      - destruct t; reflexivity.
+      - apply (SH 5%nat); apply V; lia.
+      - apply (ex_entry TPipe BitOr); reflexivity. }
+    assert (A2 : forall m, entry_ok c m 2 = true -> pe m ts = g_not_test P ts).
+    { intros m Hm. apply not_step; auto.
+      - apply (SH 2%nat); apply V; lia.
+      - apply (SH 4%nat); apply V; lia. }
+    assert (A1 : forall m, entry_ok c m 1 = true -> pe m ts = g_and_test P ts).
+    { intros m Hm. apply (left_step 1 and_ops (g_not_test P) (g_not_consuming P HP)); auto; try lia.
+      - destruct t; reflexivity.
+      - apply (SH 2%nat); apply V; lia.
+      - apply (ex_entry TAnd And); reflexivity. }
+    assert (A0 : forall m, entry_ok c m 0 = true -> pe m ts = g_or_test P ts).
+    { intros m Hm. apply (left_step 0 or_ops (g_and_test P) (g_and_consuming P HP)); auto; try lia.
+      - destruct t; reflexivity.
+      - apply (SH 1%nat); apply V; lia.
+      - apply (ex_entry TOr Or); reflexivity. }
+    intros i m [Hle Hne] He.
+    do 11 (destruct i as [|i]; [first [exfalso; apply Hne; reflexivity|apply A0; exact He|apply A1; exact He|apply A2; exact He|apply A4; exact He|apply A5; exact He|apply A6; exact He|apply A7; exact He|apply A8; exact He|apply A9; exact He|apply A10; exact He]|]).
+    lia.
+  Qed.
+
+  Corollary pratt_or_test : forall m ts, entry_ok c m 0 = true -> parse_expr_top c P m ts = g_or_test P ts.
+  Proof. intros. apply (pratt_level (S (List.length ts)) ts ltac:(lia) 0%nat m); auto. split; lia. Qed.
+End Main.
+
+(* ---------------------------------------------------------------------------------------------- *)
+(* Part 4: closed statements *)
+
+Lemma parse_unary_consuming : forall c R, consuming (parse_unary c R).
+Proof.
+  intros c R ts e r H. unfold parse_unary, guard in H.
+  destruct (unary_loop c R (S (List.length ts)) ts) as [[e0 r0]| | |]; try discriminate.
+  destruct (Nat.ltb (List.length r0) (List.length ts)) eqn:E; [|discriminate].
+  inversion H; subst. apply Nat.ltb_lt. exact E.
+Qed.
+
+(* the operator layer: every level, every consuming operand parser, every table with table_ok *)
+Theorem pratt_eq_grammar_oplayer : forall c, table_ok c = true -> forall P, consuming P ->
+  forall i m, valid_level i -> entry_ok c m i = true ->
+  forall ts, parse_expr_top c P m ts = G P i ts.
+Proof.
+  intros c Hok P HP i m Hv He ts.
+  exact (pratt_level c P HP Hok (S (List.length ts)) ts (Nat.lt_succ_diag_r _) i m Hv He).
+Qed.
+
+(* the entry points the parser actually uses, over the model's own parse_unary *)
+Theorem pratt_entry_points : forall c, table_ok c = true -> forall R ts,
+  let P := parse_unary c R in
+  parse_expr_top c P (c_test c) ts = g_or_test P ts /\
+  parse_expr_top c P (c_ortest c) ts = g_or_test P ts /\
+  parse_expr_top c P (c_arg c) ts = g_or_test P ts /\
+  parse_expr_top c P (c_not_rbp c) ts = g_not_test P ts /\
+  parse_expr_top c P (c_bitor c) ts = g_bitor P ts.
+Proof.
+  intros c Hok R ts P.
+  pose proof (parse_unary_consuming c R) as HP.
+  destruct (T_all c Hok) as (_ & _ & _ & _ & _ & E1 & E2 & E3 & E4 & E5).
+  repeat split.
+  - apply (pratt_eq_grammar_oplayer c Hok P HP 0%nat); auto. split; lia.
+  - apply (pratt_eq_grammar_oplayer c Hok P HP 0%nat); auto. split; lia.
+  - apply (pratt_eq_grammar_oplayer c Hok P HP 0%nat); auto. split; lia.
+  - apply (pratt_eq_grammar_oplayer c Hok P HP 2%nat); auto. split; lia.
+  - apply (pratt_eq_grammar_oplayer c Hok P HP 4%nat); auto. split; lia.
+Qed.
+
+(* right operands: the operand of an operator of level i is parsed as the nonterminal of level i+1
+   (left associativity; for comparisons: BitOr, and the explicit rejection makes them non-associative) *)
+Theorem pratt_right_operand : forall c, table_ok c = true -> forall P, consuming P ->
+  forall t op l r, lookup (c_tbl c) t = Some (op, l, r) ->
+  forall ts, parse_expr_top c P r ts = G P (S (ref_level op)) ts.
+Proof.
+  intros c Hok P HP t op l r Hl ts.
+  apply (pratt_eq_grammar_oplayer c Hok P HP); [destruct op; split; simpl; lia|].
+  eapply T_rhs; eauto. eapply lookup_entries; eauto.
+Qed.
